@@ -1,11 +1,11 @@
-\* thorough: three fresh signing calls, two timestamps, one key; checked exhaustively, not exported (about 1.6e6 transitions)
+\* not run by the check (about 2.2e7 transitions, 1.8e6 states, 2 min on 4 idle cores): the product of PrivValBig and PrivValBigKeys, for manual runs
 SPECIFICATION Spec
 CONSTANTS
   Heights = {1, 2}
   Rounds = {0, 1}
   Blocks = {1, 2}
   Times = {1, 2}
-  Keys = {1}
+  Keys = {1, 2}
   FileKey = 1
   MaxSigned = 3
   WithoutSave = FALSE
